@@ -30,7 +30,7 @@ LIVE = ('preparing', 'submitted', 'running')
 
 
 class Sim:
-    def __init__(self, cfg, dirpath, restart=False, name='wf'):
+    def __init__(self, cfg, dirpath, restart=False, name='wf', real_ds=False):
         import cylc.flow.task_action_timer as tat
         tat.time = lambda: 1000.0
         self.cfg = cfg
@@ -39,29 +39,16 @@ class Sim:
         db.pri_path, db.pub_path = path, path + '.pub'
         db.on_workflow_start(restart)
         self.db = db
-        ds = Stub('data_store_mgr')
-        ds.__dict__['xtrigger_tasks'] = {}
-        self.ds = ds
-        xm = fx.xtrigger_mgr(name, db, ds)
-        tem = TaskEventsManager(
-            name, Stub('proc_pool'), db,
-            Stub('broadcast_mgr'), xm, ds, False, set(), lambda: None)
-        tem.broadcast_mgr.__dict__['get_broadcast'] = lambda *a, **k: {}
-        tem.workflow_cfg = cfg.cfg
-        tem.setup_event_handlers = lambda *a, **k: None
-        tem._reset_job_timers = lambda *a, **k: None
-        self.tem = tem
-        self.pool = TaskPool(fx.tokens(name), cfg, db, tem, xm, ds,
-                             FlowMgr(db))
-        tem.spawn_func = self.pool.spawn_on_output
-        self.killed = []
-        self.submitted = []      # (name, point, submit_num, flows) per job
-        self.prepared = []       # (name, point, submit_num) per preparation
+        bm = Stub('broadcast_mgr')
+        bm.__dict__['get_broadcast'] = lambda *a, **k: {}
+        bm.__dict__['broadcasts'] = {}
         self.schd = NS(
-            pool=self.pool, config=cfg, workflow_db_mgr=db,
-            data_store_mgr=ds, task_events_mgr=tem, xtrigger_mgr=xm,
+            workflow=name, owner='u', host='localhost',
+            server=NS(port=1, pub_port=2), workflow_log_dir=dirpath,
+            config=cfg, workflow_db_mgr=db, broadcast_mgr=bm,
             is_paused=False, stop_mode=None, auto_restart_time=None,
             auto_restart_mode=None, reload_pending=False,
+            stop_clock_time=None,
             should_auto_restart_now=lambda: False,
             is_restart_timeout_wait=False, is_stalled=False, timers={},
             EVENT_STALL=Scheduler.EVENT_STALL,
@@ -71,10 +58,39 @@ class Sim:
             kill_tasks=lambda ts, warn=True: self.killed.extend(ts),
             start_job_submission=self._start_job_submission,
         )
+        if real_ds:
+            from cylc.flow.data_store_mgr import DataStoreMgr
+            ds = DataStoreMgr(self.schd)
+        else:
+            ds = Stub('data_store_mgr')
+            ds.__dict__['xtrigger_tasks'] = {}
+        self.ds = ds
+        self.real_ds = real_ds
+        xm = fx.xtrigger_mgr(name, db, ds)
+        tem = TaskEventsManager(
+            name, Stub('proc_pool'), db, bm, xm, ds, False, set(),
+            lambda: None)
+        tem.workflow_cfg = cfg.cfg
+        tem.setup_event_handlers = lambda *a, **k: None
+        tem._reset_job_timers = lambda *a, **k: None
+        self.tem = tem
+        self.pool = TaskPool(fx.tokens(name), cfg, db, tem, xm, ds,
+                             FlowMgr(db))
+        tem.spawn_func = self.pool.spawn_on_output
+        self.schd.pool = self.pool
+        self.schd.data_store_mgr = ds
+        self.schd.task_events_mgr = tem
+        self.schd.xtrigger_mgr = xm
+        if real_ds:
+            ds.initiate_data_model()
+        self.killed = []
+        self.submitted = []      # (name, point, submit_num, flows) per job
+        self.prepared = []       # (name, point, submit_num) per preparation
         self.schd.check_workflow_stalled = types.MethodType(
             Scheduler.check_workflow_stalled, self.schd)
         self.auto_submit = True  # jobs reach "submitted" in the same loop
         self.on_submit = None    # callback(itask) -> False vetoes (a check)
+        self.on_publish = None   # callback(): deltas are pending
 
     # ------------------------------------------------------------ start-up
     def cold_start(self):
@@ -95,8 +111,19 @@ class Sim:
     # ------------------------------------------------------------ main loop
     def flush(self):
         """update_data_structure + process_workflow_db_queue."""
+        if self.real_ds:
+            # Scheduler.update_data_structure: publish what is pending,
+            # update, publish again
+            self.publish()
+            self.ds.update_data_structure()
+            self.publish()
         self.db.put_task_pool(self.pool)
         self.db.process_queued_ops()
+
+    def publish(self):
+        """Scheduler._publish_deltas (the subscriber is the harness)."""
+        if self.on_publish is not None and self.ds.publish_pending:
+            self.on_publish()
 
     def _start_job_submission(self, itasks):
         for t in sorted(itasks, key=lambda t: t.identity):
